@@ -1,11 +1,26 @@
 (* Correspondence glue for C09. *)
 From Coq Require Import List ZArith Bool.
-From SV Require Import Base.Bytes Jws.Compact Corr.Resolve.
+From SV Require Import Base.Bytes Jws.Compact Jws.FromBytes Corr.Resolve.
 Import ListNotations.
 
 Record wcase9 := { w9_compact : bytes; w9_hdr : hdr_facts; w9_jwk : jwk; w9_crypto_ok : bool; w9_accepted : bool; w9_panic : bool }.
 
+Definition b64kind_eqb9 (a b : b64kind) : bool :=
+  match a, b with
+  | B64Absent, B64Absent | B64True, B64True | B64False, B64False | B64NotBool, B64NotBool => true
+  | _, _ => false
+  end.
+
+Definition hdr_facts_eqb (a b : hdr_facts) : bool :=
+  Bool.eqb (h_json_ok a) (h_json_ok b) && Bool.eqb (h_has_alg a) (h_has_alg b) && b64kind_eqb9 (h_b64 a) (h_b64 b)
+  && bytes_eqb (h_marshal a) (h_marshal b).
+
+(* the verdict with the header facts go-jose produced (harness), the header facts computed in Coq from the compact
+   string, and the verdict computed from the bytes alone *)
 Definition check_wcase9 (c : wcase9) : bool :=
-  negb (w9_panic c) && Bool.eqb (verify_jws (w9_compact c) (w9_hdr c) (w9_jwk c) (w9_crypto_ok c)) (w9_accepted c).
+  negb (w9_panic c)
+  && Bool.eqb (verify_jws (w9_compact c) (w9_hdr c) (w9_jwk c) (w9_crypto_ok c)) (w9_accepted c)
+  && hdr_facts_eqb (hdr_of_compact (w9_compact c)) (w9_hdr c)
+  && Bool.eqb (verify_jws_bytes (w9_compact c) (w9_jwk c) (w9_crypto_ok c)) (w9_accepted c).
 
 Definition w9_mismatches (base : nat) (l : list wcase9) : list nat := mismatches_from check_wcase9 base l.
